@@ -961,10 +961,10 @@ class XMLSchemaBase(XsdValidator, ElementPathMixin[Union[SchemaType, XsdElement]
             return self.maps.elements.get(tag)
         elif path[-1] == '*':
             xsd_element = self.find(path[:-1] + tag, namespaces)
-            if isinstance(xsd_element, XsdElement):
+            if isinstance(xsd_element, XsdElement) and xsd_element.name == tag:
                 return xsd_element
             else:
-                return self.maps.elements.get(tag)
+                return self.maps.elements.get(tag)  # a global element or a substitute
         else:
             xsd_element = self.find(path, namespaces)
             if not isinstance(xsd_element, XsdElement):
@@ -1338,7 +1338,7 @@ class XMLSchemaBase(XsdValidator, ElementPathMixin[Union[SchemaType, XsdElement]
         # With a selection path the XSD element is the one found with the path of
         # each selected element, that can differ for the elements selected by a path
         # with wildcards or descendant steps (the same name in different contexts).
-        use_element_path = bool(path) and not schema_path
+        use_element_path = not schema_path
         if not schema_path:
             schema_path = resource.get_absolute_path(path)
 
@@ -1449,13 +1449,21 @@ class XMLSchemaBase(XsdValidator, ElementPathMixin[Union[SchemaType, XsdElement]
         """Returns a generator for decoding a resource."""
         kwargs['source'] = self.maps.settings.get_xml_resource(source)
         context = DecodeContext(**kwargs)
+        ancestors: list[Element] = []
         if path:
-            selector = context.source.iterfind(path, context.namespaces)
+            selector = context.source.iterfind(path, context.namespaces, ancestors=ancestors)
         else:
-            selector = context.source.iter_depth(mode=2)
+            selector = context.source.iter_depth(mode=2, ancestors=ancestors)
 
         for elem in selector:
             xsd_element = self.get_element(elem.tag, schema_path, context.namespaces)
+            if xsd_element is not None and ancestors:
+                # The XSD element is the one found with the path of the element
+                element_path = f"/{'/'.join(e.tag for e in ancestors)}/{elem.tag}"
+                _xsd_element = self.get_element(elem.tag, element_path, context.namespaces)
+                if _xsd_element is not None:
+                    xsd_element = _xsd_element
+
             if xsd_element is None:
                 if nm.XSI_TYPE in elem.attrib:
                     xsd_element = self.builders.create_element(elem.tag, self)
